@@ -102,23 +102,49 @@ func spendData(s *spend) [][]byte {
 // is present in the spend and the direction of the disagreement is the one the finding explains.
 func (P) ClassifyMismatch(line, goOut, leanOut string) string {
 	f := strings.Fields(line)
-	if len(f) != 7 || f[1] != "run" {
+	if len(f) < 3 {
+		return ""
+	}
+	off, whole := 0, false
+	switch f[1] {
+	case "run", "par":
+		off = 2
+	case "runv":
+		off = 3
+	case "runtx", "valtx":
+		off, whole = 2, true
+	default:
+		return ""
+	}
+	if len(f) != off+5 {
 		return ""
 	}
 	var s *spend
 	func() {
 		defer func() { recover() }()
-		s = parseSpend(f[2:])
+		s = parseSpend(f[off:])
 	}()
-	if s == nil || s.idx >= len(s.tx.TxIn) {
+	if s == nil || s.idx >= len(s.tx.TxIn) || len(s.spent) != len(s.tx.TxIn) {
 		return ""
 	}
-	switch {
-	case goOut != leanOut && (goOut == "ok" || goOut == "err") && (leanOut == "ok" || leanOut == "err") &&
-		s.flags&(txscript.ScriptVerifyDERSignatures|txscript.ScriptVerifyStrictEncoding|txscript.ScriptVerifyLowS) == 0:
-		// F-C06-d: without DERSIG, Core parses signatures with its lax DER parser; btcd's BER parser
-		// rejects some encodings that parser accepts (long-form lengths, wrong sequence length). The
-		// signature check then gives false instead of true, which a following OP_NOT can turn either way.
+	if goOut == leanOut || (goOut != "ok" && goOut != "err") || (leanOut != "ok" && leanOut != "err") {
+		return ""
+	}
+	// F-C06-d: without DERSIG, Core parses signatures with its lax DER parser; btcd's BER parser
+	// rejects some encodings that parser accepts (long-form lengths, wrong sequence length). The
+	// signature check then gives false instead of true, which a following OP_NOT can turn either way.
+	if s.flags&(txscript.ScriptVerifyDERSignatures|txscript.ScriptVerifyStrictEncoding|txscript.ScriptVerifyLowS) != 0 {
+		return ""
+	}
+	idxs := []int{s.idx}
+	if whole {
+		idxs = nil
+		for i := range s.tx.TxIn {
+			idxs = append(idxs, i)
+		}
+	}
+	for _, i := range idxs {
+		s.idx = i
 		for _, d := range spendData(s) {
 			if len(d) < 2 {
 				continue
